@@ -94,6 +94,7 @@ def run(M, rec, tier, seed, k, n):
             W.inplace_pairs(M, rec, rng, 40, before_case=on_case)
             W.small_valid_steps(M, rec, rng, 2, before_case=on_case, seed=seed)
             W.symbolic_param_steps(M, rec, rng, symvals, 30, before_case=on_case)
+            W.dm_steps(M, rec, rng, symvals, 60, before_case=on_case)
         else:
             W.numpy_steps(M, rec, rng, 6000, draws=3, opts_prob=0.15, before_case=on_case)
             W.symbolic_steps(M, rec, rng, symvals, 420, points=3, opts_prob=0.15, before_case=on_case)
@@ -103,6 +104,7 @@ def run(M, rec, tier, seed, k, n):
             # every valid 4-node topology (49 551 digraphs) with the reduced role set (253 151 networks)
             W.small_valid_steps(M, rec, rng, 4, k, n, before_case=on_case, seed=seed + 1, kinds_full=False, only_n=4)
             W.symbolic_param_steps(M, rec, rng, symvals, 150, before_case=on_case)
+            W.dm_steps(M, rec, rng, symvals, 500, before_case=on_case)
     finally:
         W.USER_KINDS["prob"] = 0.0
         mon.uninstall()
